@@ -372,6 +372,9 @@ def search(ctx, deep=False):
                       "klass": klass, "args": c["inputs"][j], "seed": j % 3 + 1,
                       "case": _view(c, c["recs"][r_i] if r_i >= 0 else None),
                       "whole": None if r_i >= 0 else {"before": accir.to_coq(c["whole_before"]), "after": accir.to_coq(c["whole_after"])}})
+    for c in cases:
+        if "error" in c:       # the pass crashed on a generated program: that program is the failing input
+            fails.append({"what": "pass_crashed", "klass": None, "detail": c["error"], "case": _view(c)})
     for (i, r_i) in res["scope"]:
         c = cases[i]
         fails.append({"what": "use_before_definition", "klass": None, "case": _view(c, c["recs"][r_i] if r_i >= 0 else None)})
